@@ -162,6 +162,91 @@ var alphabet = map[string]opFn{
 		x, _ := q.Slice(tensor.S(2, 9))
 		return must(tensor.Square(x))
 	},
+	// ---- operations with function options on the goroutine's OWN tensors (reuse / incr destinations, in-place
+	// results, recycled tensors): they exercise the option, ints and tensor pools while shared operands are only read
+	"PrivReuse": func(s *sharedSet, p *tensor.Dense, r *rand.Rand) []float64 {
+		d := tensor.New(tensor.WithShape(3, 4), tensor.Of(tensor.Float64))
+		return must(tensor.Add(s.ts[[]string{"M", "MT", "MS"}[r.Intn(3)]], p, tensor.WithReuse(d)))
+	},
+	"PrivReuseReshaped": func(s *sharedSet, p *tensor.Dense, r *rand.Rand) []float64 {
+		// a reuse tensor of the right size but another shape is reshaped by the library
+		d := tensor.New(tensor.WithShape([][]int{{12}, {4, 3}, {2, 6}, {2, 2, 3}}[r.Intn(4)]...), tensor.Of(tensor.Float64))
+		return must(tensor.Sub(p, s.ts[[]string{"M", "MT", "MS"}[r.Intn(3)]], tensor.WithReuse(d)))
+	},
+	"PrivReuseWrongSize": func(s *sharedSet, p *tensor.Dense, r *rand.Rand) []float64 {
+		d := tensor.New(tensor.WithShape(5), tensor.Of(tensor.Float64))
+		return must(tensor.Add(p, s.ts["M"], tensor.WithReuse(d))) // refused
+	},
+	"PrivIncr": func(s *sharedSet, p *tensor.Dense, r *rand.Rand) []float64 {
+		d := tensor.New(tensor.WithShape(3, 4), tensor.WithBacking(rangeF(12, 5)))
+		return must(tensor.Mul(s.ts[[]string{"M", "MT", "MS"}[r.Intn(3)]], p, tensor.WithIncr(d)))
+	},
+	"PrivUnsafe": func(s *sharedSet, p *tensor.Dense, r *rand.Rand) []float64 {
+		q := p.Clone().(*tensor.Dense)
+		return must(tensor.Div(q, s.ts[[]string{"M", "MT", "MS"}[r.Intn(3)]], tensor.UseUnsafe()))
+	},
+	"PrivScalarReuse": func(s *sharedSet, p *tensor.Dense, r *rand.Rand) []float64 {
+		d := tensor.New(tensor.WithShape(12), tensor.Of(tensor.Float64))
+		return must(tensor.Add(3.0, s.ts[[]string{"M", "MT", "MS"}[r.Intn(3)]], tensor.WithReuse(d)))
+	},
+	"PrivCmpSameType": func(s *sharedSet, p *tensor.Dense, r *rand.Rand) []float64 {
+		return must(tensor.Gte(p, s.ts[[]string{"M", "MT", "MS"}[r.Intn(3)]], tensor.AsSameType()))
+	},
+	"PrivCmpReuse": func(s *sharedSet, p *tensor.Dense, r *rand.Rand) []float64 {
+		d := tensor.New(tensor.WithShape(3, 4), tensor.Of(tensor.Bool))
+		return must(tensor.Lt(s.ts[[]string{"M", "MT", "MS"}[r.Intn(3)]], p, tensor.WithReuse(d)))
+	},
+	"PrivUnaryReuse": func(s *sharedSet, p *tensor.Dense, r *rand.Rand) []float64 {
+		d := tensor.New(tensor.WithShape(3, 4), tensor.Of(tensor.Float64))
+		return must(tensor.Square(s.ts[[]string{"M", "MT", "MS"}[r.Intn(3)]], tensor.WithReuse(d)))
+	},
+	"PrivApply": func(s *sharedSet, p *tensor.Dense, r *rand.Rand) []float64 {
+		return must(s.ts[[]string{"M", "MT", "MS"}[r.Intn(3)]].Apply(func(x float64) float64 { return 2*x + 1 }))
+	},
+	"PrivMatMulReuse": func(s *sharedSet, p *tensor.Dense, r *rand.Rand) []float64 {
+		d := tensor.New(tensor.WithShape(3, 4), tensor.Of(tensor.Float64))
+		return must(tensor.MatMul(s.ts["SQ"], s.ts[[]string{"M", "MT", "MS"}[r.Intn(3)]], tensor.WithReuse(d)))
+	},
+	"PrivMatVecIncr": func(s *sharedSet, p *tensor.Dense, r *rand.Rand) []float64 {
+		d := tensor.New(tensor.WithShape(3), tensor.WithBacking(rangeF(3, 4)))
+		return must(tensor.MatVecMul(s.ts[[]string{"M", "MT", "MS"}[r.Intn(3)]], s.ts["V4"], tensor.WithIncr(d)))
+	},
+	"PrivOuterReuse": func(s *sharedSet, p *tensor.Dense, r *rand.Rand) []float64 {
+		d := tensor.New(tensor.WithShape(3, 4), tensor.Of(tensor.Float64))
+		return must(tensor.Outer(s.ts["V3"], s.ts["V4"], tensor.WithReuse(d)))
+	},
+	"PrivSumReuse": func(s *sharedSet, p *tensor.Dense, r *rand.Rand) []float64 {
+		return must(tensor.Sum(p, 0, 1))
+	},
+	"PrivRecycle": func(s *sharedSet, p *tensor.Dense, r *rand.Rand) []float64 {
+		// hand an own tensor back to the library's pool; later results may be built from it
+		q, err := tensor.Add(p, s.ts["M"])
+		if err != nil {
+			return []float64{-12345}
+		}
+		out := flat(q)
+		tensor.ReturnTensor(q)
+		return out
+	},
+	"PrivViews": func(s *sharedSet, p *tensor.Dense, r *rand.Rand) []float64 {
+		q := p.Clone().(*tensor.Dense)
+		v, err := q.Slice(tensor.S(0, 3, 2), nil)
+		if err != nil {
+			return []float64{-12345}
+		}
+		w, _ := v.(*tensor.Dense).SafeT()
+		x, err := tensor.Add(w, w)
+		tensor.ReturnTensor(v)
+		return must(x, err)
+	},
+	"PrivRollStack": func(s *sharedSet, p *tensor.Dense, r *rand.Rand) []float64 {
+		q, err := p.RollAxis(1, 0, true)
+		if err != nil {
+			return []float64{-12345}
+		}
+		st, err := s.ts["MT"].Stack(1, s.ts["MS"], p)
+		return append(flat(q), must(st, err)...)
+	},
 	"Repeat": func(s *sharedSet, p *tensor.Dense, r *rand.Rand) []float64 {
 		return must(tensor.Repeat(s.ts[[]string{"M", "MT", "MS"}[r.Intn(3)]], r.Intn(2), 2))
 	},
